@@ -422,6 +422,71 @@ func BFS(r *Report, step func(hist []string) (canon string, events []string, sto
 	}
 }
 
+// System is a snapshot/restore-able closed system for explicit-state search over the real code.
+type System interface {
+	Snapshot() interface{}
+	Restore(snap interface{})
+	Events() []string // enabled events in the current state (deterministic order)
+	Apply(ev string)  // one transition: calls the real code; oracles record findings
+	Canon() string    // canonical form of the current state
+	TakeFindings() []Finding
+}
+
+// BFSSys explores all event sequences of sys breadth-first, deduplicating by Canon. A state in which a
+// finding was raised is not expanded further. onTransition is called after every transition.
+func BFSSys(r *Report, sys System, o BFSOpts, onTransition func(hist []string, ev string, fs []Finding)) {
+	type node struct {
+		snap   interface{}
+		hist   []string
+		events []string
+	}
+	seen := map[string]struct{}{sys.Canon(): {}}
+	r.States++
+	cur := []node{{sys.Snapshot(), nil, sys.Events()}}
+	depth := 0
+	dl := Deadline()
+	for len(cur) > 0 {
+		if o.MaxDepth > 0 && depth >= o.MaxDepth {
+			r.Capped(fmt.Sprintf("depth cap %d reached with %d frontier states", o.MaxDepth, len(cur)))
+			return
+		}
+		var next []node
+		for _, n := range cur {
+			for _, ev := range n.events {
+				if time.Now().After(dl) {
+					r.Capped(fmt.Sprintf("deadline at depth %d", depth))
+					return
+				}
+				sys.Restore(n.snap)
+				sys.Apply(ev)
+				r.Transitions++
+				fs := sys.TakeFindings()
+				if onTransition != nil {
+					onTransition(n.hist, ev, fs)
+				}
+				c := sys.Canon()
+				if _, ok := seen[c]; ok {
+					continue
+				}
+				seen[c] = struct{}{}
+				r.States++
+				if o.MaxStates > 0 && r.States >= o.MaxStates {
+					r.Capped(fmt.Sprintf("state cap %d reached at depth %d", o.MaxStates, depth))
+					return
+				}
+				if len(fs) == 0 {
+					next = append(next, node{sys.Snapshot(), append(append([]string{}, n.hist...), ev), sys.Events()})
+				}
+			}
+		}
+		cur = next
+		depth++
+	}
+	if r.Bound == "" {
+		r.Bound = fmt.Sprintf("frontier empty at depth %d (fixpoint: event sequences of any length covered)", depth)
+	}
+}
+
 // ---------------------------------------------------------------------------------------------
 // Helpers.
 
